@@ -173,4 +173,30 @@ example :
     (User.iteratePaths ext { permissions := [b!"^/var/log/", b!"!.*"] } (b!"/var/log/app.log") READFILES).2.1 = false ∧
     (User.iteratePaths ext { permissions := [b!"!.*", b!"readfiles:^/var/log/"] } (b!"/var/log/app.log") READFILES).2.1 = true := by decide
 
+open Dtail.Go Dtail.Gen.User in
+/-- **Tie G: the whole permission decision as translated from the working tree.**  `User.HasFilePermission` and
+    `hasFilePermission` of internal/user/server/user.go (with `iteratePaths` and `splitPermission`), translated on this
+    run; `filepath.EvalSymlinks`, `filepath.Abs`, `permissions.ToRead`, `os.Lstat` and the regexp engine are parameters.
+    For every user, rule list and path and every answer of those: the file is served exactly when the user is a
+    background-job user, or the path resolves, is readable and a regular file and every rule compiles and the last rule that
+    matches the resolved path is an allow rule. -/
+theorem C08_generated_decision_is_spec (ext : Ext) (u : User) (path : Bytes) :
+    (User.HasFilePermission ext u path READFILES).2 = true ↔
+      (u.Name = Facts.scheduleUserBytes ∨ u.Name = Facts.continuousUserBytes) ∨
+      ∃ clean, (GenPerm.fsOf ext u.Name).resolve path = some clean ∧ (GenPerm.fsOf ext u.Name).osReadable clean = true ∧
+        (GenPerm.fsOf ext u.Name).regular clean = true ∧
+        specAllowed (GenPerm.oracleOf ext) clean (u.permissions.map parseRule) = true := by
+  rw [GenPerm.HasFilePermission_refines]
+  exact C08_full_holds _ _ _ _ _
+
+open Dtail.Go Dtail.Gen.User in
+/-- non-vacuity: an ordinary user, an allow rule that matches, a regular file — served; the same behind a failing
+    `EvalSymlinks` — not served -/
+example :
+    let ext : Ext := { parseFloat := fun _ => (0, none), reMatchRaw := fun _ _ => true }
+    let ext2 : Ext := { ext with evalSymlinks := fun p => (p, some []) }
+    (User.HasFilePermission ext { Name := b!"paul", permissions := [b!"^/var/log/"] } (b!"/var/log/x") READFILES).2 = true ∧
+    (User.HasFilePermission ext2 { Name := b!"paul", permissions := [b!"^/var/log/"] } (b!"/var/log/x") READFILES).2 = false := by
+  decide
+
 end Dtail.C08
